@@ -2,6 +2,8 @@ import MoneroModel.Model.HashScalar
 import MoneroModel.Proofs.LeBytes
 import MoneroModel.Proofs.KeccakLemmas
 import MoneroModel.Proofs.HashScalarSpec
+import MoneroModel.Proofs.KeccakSize
+import MoneroModel.Proofs.KeccakKat
 /-! C17 — "Hashing is Keccak-256 with original padding; hash-to-scalar reduces modulo l".
 What is proved: the reduction `hs`, the padding rule and the block structure of the sponge of the reference (= model)
 function, and a handful of published Keccak-256 test vectors by kernel evaluation (`decide +kernel`;
@@ -51,6 +53,40 @@ theorem C17_hash_to_scalar (H : Bytes → Bytes) (m : Bytes) :
 `n − ⌊n/l⌋·l`, bytes by repeated division) denotes the same function as the model -/
 theorem C17_hs_spec (d : Bytes) : Spec.HashScalar.scalarOfDigest d = hsBytes d := Spec.HashScalar.scalarOfDigest_eq d
 
+/-- the digest of the reference (= model) hash has exactly 32 bytes, for every message: the reduction below is always applied
+to a 32-byte string, as in the Rust type `[u8; 32]` -/
+theorem C17_keccak_len (m : Bytes) : (keccak256 m).length = 32 ∧ (hashNew m).length = 32 := by
+  simp [keccak256, hashNew]
+
+/-- `Hash::hash_to_scalar` at the library's own hash (`C17_hash_to_scalar` instantiated, nothing left generic): the model hash IS the
+reference Keccak-256, its digest has 32 bytes and value below 2^256, the scalar is the little-endian value of that digest modulo
+`l`, it is reduced, its 32-byte encoding is what the independently written `Spec.HashScalar.scalarOfDigest` yields on the Keccak
+digest, and the encoding equals the digest exactly when the digest was already below `l`. -/
+theorem C17_hash_to_scalar_keccak (m : Bytes) :
+    hashNew m = keccak256 m ∧ (hashNew m).length = 32 ∧ leNat (keccak256 m) < 2 ^ 256 ∧
+    hashToScalar hashNew m = leNat (keccak256 m) % Ed.l ∧ hashToScalar hashNew m < Ed.l ∧
+    hashToScalarBytes hashNew m = Spec.HashScalar.scalarOfDigest (keccak256 m) ∧
+    (hashToScalarBytes hashNew m).length = 32 ∧ leNat (hashToScalarBytes hashNew m) = leNat (keccak256 m) % Ed.l ∧
+    (hashToScalarBytes hashNew m = keccak256 m ↔ leNat (keccak256 m) < Ed.l) := by
+  have hlen := (C17_keccak_len m).1
+  have h := C17_hs (keccak256 m)
+  refine ⟨rfl, (C17_keccak_len m).2, (C17_le_roundtrip.2 _ hlen).2, rfl, h.1, ?_, h.2.2.2.1, h.2.2.2.2.1, h.2.2.2.2.2 hlen⟩
+  rw [C17_hs_spec]; rfl
+
+/-- the provided trait method `Hashable::hash_to_scalar` (hash.rs:111-113), for EVERY implementor (given by its `hash`): it is
+`as_scalar` of the value's own hash — one hash, one reduction —, equal to the independent statement applied to that hash, 32 bytes
+long, encoding `LE(hash x) mod l`; on a `PublicKey` (hash = Keccak of the key bytes) it coincides with `Hash::hash_to_scalar` of
+the key bytes. -/
+theorem C17_hashable_hash_to_scalar {α : Type} (hash : α → Bytes) (x : α) :
+    hashableToScalarBytes hash x = hsBytes (hash x) ∧
+    hashableToScalarBytes hash x = Spec.HashScalar.scalarOfDigest (hash x) ∧
+    (hashableToScalarBytes hash x).length = 32 ∧
+    leNat (hashableToScalarBytes hash x) = leNat (hash x) % Ed.l ∧ leNat (hashableToScalarBytes hash x) < Ed.l ∧
+    (∀ k : Bytes, hashableToScalarBytes hashNew k = hashToScalarBytes hashNew k) := by
+  have h := C17_hs (hash x)
+  have h4 : leNat (hashableToScalarBytes hash x) = leNat (hash x) % Ed.l := h.2.2.2.2.1
+  exact ⟨rfl, (C17_hs_spec _).symm, h.2.2.2.1, h4, by rw [h4]; exact h.1, fun _ => rfl⟩
+
 /-- padded length: a positive multiple of the rate 136; between 1 and 136 bytes are added -/
 theorem C17_pad_len (m : Bytes) :
     (pad m).length % 136 = 0 ∧ 0 < (pad m).length ∧
@@ -92,29 +128,81 @@ theorem C17_absorb_blocks (m : Bytes) :
   refine ⟨absorb_blocks n _ _ hlen, blocks_length n _, ?_, h1, h2⟩
   rw [hlen]; simp [rate]
 
-set_option maxRecDepth 100000 in
+/-- the padding is injective: two different messages never give the same padded string (so the only place where the reference
+can map different messages to one digest is the compression by the sponge itself) -/
+theorem C17_pad_injective (a b : Bytes) (h : pad a = pad b) : a = b := pad_injective a b h
+
+/-- the number of lanes is invariant: XOR-ing a block in and the permutation keep the size of ANY state array, so the state of the
+reference sponge has exactly 25 lanes after absorbing any padded message, and the lane indices of the pi step are below 25. Together
+with the literal index ranges of `Ref/Keccak.lean` (`i+20`, `j*5+i`, `j*5+4` with `i, j < 5`; block byte `i < 136` goes to lane
+`i/8 ≤ 16`; the digest reads lanes `0..3`) this means that no totalised accessor `st[i]!` / `set!` of the reference ever falls back
+to its out-of-bounds behaviour: `C17_absorb_step` / `C17_absorb_blocks` speak about genuine 25-lane states. -/
+theorem C17_state_size (m : Bytes) :
+    (absorb (Array.replicate 25 0) (pad m)).size = 25 ∧
+    (∀ st : Array UInt64, (f1600 st).size = st.size) ∧ (∀ (st : Array UInt64) (blk : Bytes), (xorBlock st blk).size = st.size) ∧
+    (∀ i ∈ piln.toList, i < 25) ∧ piln.size = 24 ∧ rotc.size = 24 ∧ rc.size = 24 :=
+  ⟨state_size _, f1600_size, xorBlock_size, by decide, rfl, rfl, rfl⟩
+
+/-- the whole reference function in one statement: pad (original Keccak rule), cut into `⌊|m|/136⌋ + 1` blocks of 136 bytes, fold
+"XOR the block in, permute" over them from the all-zero 25-lane state, output the first 32 bytes of the state (lanes little-endian) -/
+theorem C17_keccak_sponge (m : Bytes) :
+    keccak256 m = digestOf ((blocks (m.length / 136 + 1) (pad m)).foldl (fun st blk => f1600 (xorBlock st blk)) (Array.replicate 25 0)) ∧
+    ((blocks (m.length / 136 + 1) (pad m)).foldl (fun st blk => f1600 (xorBlock st blk)) (Array.replicate 25 0)).size = 25 := by
+  have h : absorb (Array.replicate 25 0) (pad m) =
+      (blocks (m.length / 136 + 1) (pad m)).foldl (fun st blk => f1600 (xorBlock st blk)) (Array.replicate 25 0) := (C17_absorb_blocks m).1
+  rw [← h]
+  exact ⟨keccak256_eq m, state_size _⟩
+
+/-- the three constant tables of the reference are the ones GENERATED by the rules of the Keccak specification — round constants:
+bit `2^j − 1` of `RC[i]` is the constant term of `x^(j+7i) mod x^8+x^6+x^5+x^4+1`; rho offsets `(t+1)(t+2)/2 mod 64`; pi walk
+`(x,y) ↦ (y, 2x+3y mod 5)` from `(1,0)`, lane index `x + 5y` — so a slip in a hand-copied table entry is excluded (kernel evaluation) -/
+theorem C17_tables_generated :
+    rc.toList.map UInt64.toNat = rcTable 24 1 ∧ rotc.toList = rhoOffsets ∧ piln.toList = piWalk 24 (1, 0) :=
+  ⟨rc_generated, rotc_generated, piln_generated⟩
+
 /-- published Keccak-256 vector for the empty string (a test of the reference by kernel evaluation) -/
 theorem C17_kats_empty : keccak256 [] =
-    [0xc5,0xd2,0x46,0x01,0x86,0xf7,0x23,0x3c,0x92,0x7e,0x7d,0xb2,0xdc,0xc7,0x03,0xc0,0xe5,0x00,0xb6,0x53,0xca,0x82,0x27,0x3b,0x7b,0xfa,0xd8,0x04,0x5d,0x85,0xa4,0x70] := by decide +kernel
+    [0xc5,0xd2,0x46,0x01,0x86,0xf7,0x23,0x3c,0x92,0x7e,0x7d,0xb2,0xdc,0xc7,0x03,0xc0,0xe5,0x00,0xb6,0x53,0xca,0x82,0x27,0x3b,0x7b,0xfa,0xd8,0x04,0x5d,0x85,0xa4,0x70] := kat_empty
 
-set_option maxRecDepth 100000 in
 /-- published Keccak-256 vector for "abc" (a test of the reference by kernel evaluation) -/
 theorem C17_kats_abc : keccak256 [97,98,99] =
-    [0x4e,0x03,0x65,0x7a,0xea,0x45,0xa9,0x4f,0xc7,0xd4,0x7b,0xa8,0x26,0xc8,0xd6,0x67,0xc0,0xd1,0xe6,0xe3,0x3a,0x64,0xa0,0x36,0xec,0x44,0xf5,0x8f,0xa1,0x2d,0x6c,0x45] := by decide +kernel
+    [0x4e,0x03,0x65,0x7a,0xea,0x45,0xa9,0x4f,0xc7,0xd4,0x7b,0xa8,0x26,0xc8,0xd6,0x67,0xc0,0xd1,0xe6,0xe3,0x3a,0x64,0xa0,0x36,0xec,0x44,0xf5,0x8f,0xa1,0x2d,0x6c,0x45] := kat_abc
 
-set_option maxRecDepth 100000 in
 /-- published Keccak-256 vector for "The quick brown fox jumps over the lazy dog" (a test of the reference by kernel evaluation) -/
 theorem C17_kats_fox : keccak256 [84,104,101,32,113,117,105,99,107,32,98,114,111,119,110,32,102,111,120,32,106,117,109,112,115,32,111,118,101,114,32,116,104,101,32,108,97,122,121,32,100,111,103] =
-    [0x4d,0x74,0x1b,0x6f,0x1e,0xb2,0x9c,0xb2,0xa9,0xb9,0x91,0x1c,0x82,0xf5,0x6f,0xa8,0xd7,0x3b,0x04,0x95,0x9d,0x3d,0x9d,0x22,0x28,0x95,0xdf,0x6c,0x0b,0x28,0xaa,0x15] := by decide +kernel
+    [0x4d,0x74,0x1b,0x6f,0x1e,0xb2,0x9c,0xb2,0xa9,0xb9,0x91,0x1c,0x82,0xf5,0x6f,0xa8,0xd7,0x3b,0x04,0x95,0x9d,0x3d,0x9d,0x22,0x28,0x95,0xdf,0x6c,0x0b,0x28,0xaa,0x15] := kat_fox
 
-set_option maxRecDepth 100000 in
 /-- two-block vector: 200 bytes 0xa3 (regression value — agreed on by tiny-keccak and the reference; not a published vector) -/
 theorem C17_kats_two_blocks : keccak256 (List.replicate 200 0xa3) =
-    [0x3a,0x57,0x66,0x6b,0x04,0x87,0x77,0xf2,0xc9,0x53,0xdc,0x44,0x56,0xf4,0x5a,0x25,0x88,0xe1,0xcb,0x6f,0x2d,0xa7,0x60,0x12,0x2d,0x53,0x0a,0xc2,0xce,0x60,0x7d,0x4a] := by decide +kernel
+    [0x3a,0x57,0x66,0x6b,0x04,0x87,0x77,0xf2,0xc9,0x53,0xdc,0x44,0x56,0xf4,0x5a,0x25,0x88,0xe1,0xcb,0x6f,0x2d,0xa7,0x60,0x12,0x2d,0x53,0x0a,0xc2,0xce,0x60,0x7d,0x4a] := kat_two_blocks
+
+/-- NIST example values for SHA3-256 (empty message; 200 bytes 0xa3 = two blocks) reproduced by the reference sponge when only the
+first pad byte is 0x06 instead of 0x01 (`Keccak.sha3_256` uses the SAME `absorb`, `xorBlock`, `f1600` and squeezing as `keccak256`): a
+published multi-block vector, from outside tiny-keccak, behind the permutation and the block-wise absorption (a test by kernel
+evaluation; the padding itself is covered for every message by `C17_pad_shape`) -/
+theorem C17_kats_sha3_nist :
+    sha3_256 [] = [0xa7,0xff,0xc6,0xf8,0xbf,0x1e,0xd7,0x66,0x51,0xc1,0x47,0x56,0xa0,0x61,0xd6,0x62,0xf5,0x80,0xff,0x4d,0xe4,0x3b,0x49,0xfa,0x82,0xd8,0x0a,0x4b,0x80,0xf8,0x43,0x4a] ∧
+    sha3_256 (List.replicate 200 0xa3) = [0x79,0xf3,0x8a,0xde,0xc5,0xc2,0x03,0x07,0xa9,0x8e,0xf7,0x6e,0x83,0x24,0xaf,0xbf,0xd4,0x6c,0xfd,0x81,0xb2,0x2e,0x39,0x73,0xc6,0x5f,0xa1,0xbd,0x9d,0xe3,0x17,0x87] ∧
+    (∀ m : Bytes, sha3_256 m = digestOf (absorb (Array.replicate 25 0) (padSha3 m))) ∧
+    (∀ m : Bytes, keccak256 m = digestOf (absorb (Array.replicate 25 0) (pad m))) :=
+  ⟨sha3_256_empty, sha3_256_nist_1600, fun _ => rfl, keccak256_eq⟩
+
+/-- 135-byte message 0,1,…,134: the single-pad-byte (0x81) branch evaluated in the kernel (regression value on which tiny-keccak, the
+table-free Rust Keccak of harness/src/c17.rs and this reference agree; not a published vector) -/
+theorem C17_kats_len135 : keccak256 ((List.range 135).map UInt8.ofNat) =
+    [0xcb,0xdf,0xd9,0xde,0xe5,0xfa,0xad,0x38,0x18,0xd6,0xb0,0x6f,0x95,0xa2,0x19,0xfd,0x29,0x0b,0x0e,0x17,0x06,0xf6,0xa8,0x2e,0x5a,0x59,0x5b,0x9c,0xe9,0xfa,0xca,0x62] :=
+  keccak256_len135
 
 /-- hypotheses are satisfiable / the statements are not vacuous: a digest ≥ l is really reduced, one below is not -/
 example : hs (toBytesLE (Ed.l + 5) 32) = 5 := by decide +kernel
 example : hsBytes (List.replicate 32 0xff) ≠ List.replicate 32 0xff := by decide +kernel
+set_option maxRecDepth 100000 in
+/-- `C17_hashable_hash_to_scalar` is not satisfied by a method that hashes again before reducing (the two differ on the empty key) -/
+example : hashableToScalarBytes hashNew [] ≠ hsBytes (hashNew (hashNew [])) := by
+  show hsBytes (keccak256 []) ≠ hsBytes (keccak256 (keccak256 []))
+  rw [kat_empty, kat_empty_twice]; decide +kernel
+/-- `C17_pad_injective` has a satisfiable hypothesis only for equal messages; different messages of equal length pad differently -/
+example : pad [1, 2] ≠ pad [1, 3] := by decide
 example : (pad (List.replicate 135 0)).length = 136 ∧ (pad (List.replicate 136 0)).length = 272 := by decide +kernel
 
 end C17
